@@ -1,6 +1,7 @@
 package check
 
 import (
+	"bngvc/llvc"
 	"encoding/json"
 	"flag"
 	"fmt"
@@ -426,6 +427,32 @@ func (r *propRun) exec() int {
 		}
 		if clean {
 			newBL.Clean = append(newBL.Clean, u.Func)
+		}
+	}
+	// a property anchored in both Go and eBPF code: the kernel programs are verified in the same run
+	if len(def.BPF) > 0 {
+		llvc.RepoBPFDir = filepath.Join(r.repo, "bpf")
+		lt, lrl, lcache := 180*time.Second, int64(400_000_000), filepath.Join(verifDir, ".cache", "smt")
+		if r.tier == "thorough" {
+			lt, lrl, lcache = 600*time.Second, 2_000_000_000, ""
+		}
+		ls := smt.NewSolver(lt, lcache)
+		ls.RLimit = lrl
+		ls.Confirm = r.tier == "thorough"
+		helpers, irs := r.runBPFUnits(ls, known, blDis, newBL)
+		if r.extra == nil {
+			r.extra = map[string]interface{}{}
+		}
+		var hs []string
+		for h := range helpers {
+			hs = append(hs, h)
+		}
+		sort.Strings(hs)
+		r.extra["bpf_helpers_used"] = hs
+		r.extra["ir_sha256"] = irs
+		r.extra["assumed_helper_contracts"] = llvc.AssumedHelpers
+		for k, v := range ls.Stats {
+			solver.Stats[k] += v
 		}
 	}
 	// baseline functions that disappeared
